@@ -861,3 +861,103 @@ func VerifC19Limits() {
 		verifrt.Cover("wtmax")
 	}
 }
+
+// VerifC07Write: the stability contract of WRITE: the committed level reported is never weaker than
+// requested, anything reported above UNSTABLE is durable when the reply is built, with the server's
+// unstable option off every write is FILE_SYNC, and the data is readable at once.
+func VerifC07Write() {
+	w := vWorld("d")
+	w.stepHooks()
+	h, x := w.vLive("f", nfstypes.NF3REG)
+	ip := w.boundInode(x, true)
+	verifrt.Assume(ip.Size <= 8192 && ip.ShrinkSize <= 2)
+	stable := nfstypes.Stable_how(verifrt.Choose("stable", 0, 1, 2))
+	w.nfs.Unstable = verifrt.Choose("unstable_opt", 1, 0) == 1
+	off := verifrt.Choose("off", 0, 4095, 4096)
+	n := verifrt.Choose("n", 1, 2)
+	data := verifrt.Bytes("data", n)
+	verifrt.Mark(vMarkOpBegin)
+	r := w.nfs.NFSPROC3_WRITE(nfstypes.WRITE3args{File: h, Offset: nfstypes.Offset3(off), Count: nfstypes.Count3(n), Stable: stable, Data: data})
+	m := vMonitor()
+	if r.Status != nfstypes.NFS3_OK {
+		verifrt.Cover("err")
+		return
+	}
+	c := r.Resok.Committed
+	verifrt.Assert(c == nfstypes.UNSTABLE || c == nfstypes.DATA_SYNC || c == nfstypes.FILE_SYNC, "committed-is-a-stability-level")
+	verifrt.Assert(c >= stable, "committed-not-weaker-than-requested")
+	verifrt.Assert(c == nfstypes.UNSTABLE || m.durable, "mon:stable-reply-implies-durable")
+	verifrt.Assert(w.nfs.Unstable || (c == nfstypes.FILE_SYNC && m.durable), "mon:unstable-option-off-means-file-sync")
+	verifrt.Assert(m.appends == 1, "mon:one-transaction")
+	// readable immediately
+	wrote := uint64(r.Resok.Count) // a short write is allowed when the disk fills up
+	verifrt.Assert(wrote <= n && wrote >= 1, "wrote-some-of-the-bytes")
+	rd := w.nfs.NFSPROC3_READ(nfstypes.READ3args{File: h, Offset: nfstypes.Offset3(off), Count: nfstypes.Count3(wrote)})
+	verifrt.Assert(rd.Status == nfstypes.NFS3_OK && uint64(len(rd.Resok.Data)) == wrote, "read-after-write-ok")
+	k := verifrt.U64("k")
+	verifrt.Assume(k < wrote)
+	verifrt.Assert(rd.Resok.Data[k] == data[k], "read-after-write-returns-the-data")
+	if c == nfstypes.UNSTABLE {
+		verifrt.Cover("unstable")
+	} else {
+		verifrt.Cover("stable")
+	}
+}
+
+// VerifC07Commit: after an UNSTABLE write, a successful COMMIT has flushed everything appended so far,
+// and carries the same verifier as the WRITE; two server instances have different verifiers.
+func VerifC07Commit() {
+	w := vWorld("d")
+	w.stepHooks()
+	h, x := w.vLive("f", nfstypes.NF3REG)
+	ip := w.boundInode(x, true)
+	verifrt.Assume(ip.Size <= 8192 && ip.ShrinkSize <= 2)
+	data := verifrt.Bytes("data", 1)
+	verifrt.Mark(vMarkOpBegin)
+	r := w.nfs.NFSPROC3_WRITE(nfstypes.WRITE3args{File: h, Offset: 0, Count: 1, Stable: nfstypes.UNSTABLE, Data: data})
+	if r.Status != nfstypes.NFS3_OK {
+		return
+	}
+	m1 := vMonitor()
+	cm := w.nfs.NFSPROC3_COMMIT(nfstypes.COMMIT3args{File: h, Offset: 0, Count: 0})
+	m2 := vMonitor()
+	verifrt.Assert(cm.Status == nfstypes.NFS3_OK, "commit-ok")
+	verifrt.Assert(m1.appends == 1 && m2.durable, "mon:commit-flushes-every-earlier-append")
+	verifrt.Assert(cm.Resok.Verf == r.Resok.Verf, "commit-and-write-verifier-agree")
+	// a second server instance (a restart on the same disk) answers with another verifier
+	nfs2 := MakeNfs(w.d)
+	r2 := nfs2.NFSPROC3_WRITE(nfstypes.WRITE3args{File: h, Offset: 0, Count: 1, Stable: nfstypes.FILE_SYNC, Data: data})
+	verifrt.Assert(r2.Status == nfstypes.NFS3_OK, "write-after-restart-ok")
+	verifrt.Assert(r2.Resok.Verf != r.Resok.Verf, "verifier-differs-between-instances")
+	verifrt.Cover("end")
+}
+
+// VerifC01Recovery: a server started on a disk whose log holds a committed transaction that has not
+// been installed yet must build its in-memory state (allocators, root inode) from the logical disk
+// (home blocks overlaid with the log), not from the raw home blocks. The real write-ahead log runs here
+// (recovery, memory log); its background installer has not run yet.
+func VerifC01Recovery() {
+	d := verifrt.NewDisk("raw", verifrt.Param("disksz", 10000))
+	h1, h2 := d.Init(0), d.Init(1)
+	// log [0,1): one committed update, addressed to the block bitmap (block 513), stored in log block 2
+	for i := uint64(0); i < 8; i++ {
+		verifrt.Assume(h2[i] == 0)
+		e := byte(0)
+		if i == 0 {
+			e = 1
+		}
+		verifrt.Assume(h1[i] == e)
+		a := byte(uint64(513) >> (8 * i))
+		verifrt.Assume(h1[8+i] == a)
+	}
+	// the root inode (home copy, not in the log) is a directory: the file system is formatted
+	rb := d.Init(515)
+	verifrt.Assume(rb[128] == 2 && rb[129] == 0 && rb[130] == 0 && rb[131] == 0)
+	logged := d.Init(2)
+	nfs := MakeNfs(d)
+	n := verifrt.U64("bit")
+	verifrt.Assume(n < 32768)
+	logical := logged[n/8]&(1<<(n%8)) != 0
+	verifrt.Assert(nfs.fsstate.Balloc.VerifBit(n) == logical, "allocator-built-from-the-logical-disk")
+	verifrt.Cover("end")
+}
